@@ -30,6 +30,32 @@ Prims2 == { Par(V2(0, 0), V2(8, 0), V2(0, 8)),                       \* axis-ali
             Cir(V2(0, 0), A0(6)),
             Cir(V2(4, -2), A0(4)),
             Cir(<<A1(-4, "t"), A0(0)>>, A1(2, "k")) }                 \* centre moves with t, radius 1/2 + k
+\* ---- polygons (ShapelyPolygon) and polyhedra (TrimeshPolyhedron): constant vertices in quarter units
+Poly(rs) == [k |-> "poly", v |-> "x", rings |-> rs]
+RingL == <<<<-8, -8>>, <<8, -8>>, <<8, 0>>, <<0, 0>>, <<0, 8>>, <<-8, 8>>>>
+Polys == { Poly(<<RingL>>),                                                                  \* L-shape, counter-clockwise
+           Poly(<<[i \in 1..6 |-> RingL[7 - i]]>>),                                          \* the same, clockwise
+           Poly(<<<<<<-8, -6>>, <<8, -4>>, <<2, 0>>, <<6, 8>>, <<-6, 6>>>>>>),                \* slanted edges, one re-entrant vertex
+           Poly(<<<<<<-10, -10>>, <<10, -10>>, <<10, 10>>, <<-10, 10>>>>, <<<<-2, -2>>, <<6, -2>>, <<6, 6>>, <<-2, 6>>>>>>) }   \* square with a square hole
+Mesh(vs, fs, tets) == [k |-> "mesh", v |-> "y", vs |-> vs, fs |-> fs, tets |-> tets]
+MeshTet == Mesh(<<<<-4, -4, -4>>, <<8, -4, -4>>, <<-4, 8, -4>>, <<-4, -4, 8>>>>,
+                <<<<1, 2, 3>>, <<1, 2, 4>>, <<1, 3, 4>>, <<2, 3, 4>>>>, <<<<1, 2, 3, 4>>>>)              \* mixed winding of the faces
+MeshCube == Mesh(<<<<-6, -6, -6>>, <<6, -6, -6>>, <<-6, 6, -6>>, <<6, 6, -6>>, <<-6, -6, 6>>, <<6, -6, 6>>, <<-6, 6, 6>>, <<6, 6, 6>>>>,
+                 <<<<1, 2, 3>>, <<4, 2, 3>>, <<1, 2, 5>>, <<6, 2, 5>>, <<1, 3, 5>>, <<7, 3, 5>>,
+                   <<4, 2, 8>>, <<6, 2, 8>>, <<4, 3, 8>>, <<7, 3, 8>>, <<6, 5, 8>>, <<7, 5, 8>>>>,
+                 <<<<1, 2, 3, 5>>, <<4, 2, 3, 8>>, <<6, 2, 5, 8>>, <<7, 3, 5, 8>>, <<2, 3, 5, 8>>>>)
+\* two tetrahedra glued at the face z = -1: the lower apex leans out beyond the edge, the solid is not convex
+MeshBi == Mesh(<<<<-4, -4, -4>>, <<8, -4, -4>>, <<-4, 8, -4>>, <<-4, -4, 8>>, <<8, 8, -10>>>>,
+               <<<<1, 2, 4>>, <<1, 3, 4>>, <<2, 3, 4>>, <<1, 2, 5>>, <<1, 3, 5>>, <<3, 2, 5>>>>, <<<<1, 2, 3, 4>>, <<1, 2, 3, 5>>>>)
+\* the same tetrahedron with every face wound INWARD (consistent winding, inside out)
+MeshTetIn == Mesh(<<<<-4, -4, -4>>, <<8, -4, -4>>, <<-4, 8, -4>>, <<-4, -4, 8>>>>,
+                  <<<<1, 2, 3>>, <<1, 4, 2>>, <<1, 3, 4>>, <<2, 4, 3>>>>, <<<<1, 2, 3, 4>>>>)
+\* two separate bodies in one mesh, the first wound outward, the second inward
+MeshTwo == Mesh(<<<<-10, -10, -10>>, <<0, -10, -10>>, <<-10, 0, -10>>, <<-10, -10, 0>>, <<1, 1, 1>>, <<11, 1, 1>>, <<1, 11, 1>>, <<1, 1, 11>>>>,
+                <<<<1, 3, 2>>, <<1, 2, 4>>, <<1, 4, 3>>, <<2, 3, 4>>, <<5, 6, 7>>, <<5, 8, 6>>, <<5, 7, 8>>, <<6, 8, 7>>>>,
+                <<<<1, 2, 3, 4>>, <<5, 6, 7, 8>>>>)
+Meshes == {MeshTet, MeshCube, MeshBi, MeshTetIn, MeshTwo}
+ASSUME \A m \in Meshes : MeshWF(m)
 \* an interval whose length differs by four orders of magnitude between parameter rows (only in the membership / sampling universe)
 IntBig == [k |-> "interval", v |-> "u", lo |-> A0(0), hi |-> A2(4, "t", 10000)]
 Ints == { [k |-> "interval", v |-> "u", lo |-> A0(-4), hi |-> A0(6)],
@@ -45,6 +71,21 @@ An(a, b) == [k |-> "and", l |-> a, r |-> b]
 Tr(d, t) == [k |-> "trans", v |-> "x", d |-> d, t |-> t]
 Ro(d, m, p) == [k |-> "rot", v |-> "x", d |-> d, m |-> m, p |-> p]
 Pr(a, b) == [k |-> "prod", l |-> a, r |-> b]
+Roq(d, an, p) == [k |-> "rot", v |-> "x", d |-> d, m |-> "quarter", an |-> an, p |-> p]      \* rotation by (pi/2) * parameter an
+Ro3(d, m, p) == [k |-> "rot", v |-> "y", d |-> d, m |-> m, p |-> p]
+V3(a, b, c) == <<A0(a), A0(b), A0(c)>>
+\* a cuboid 3 x 2 x 1 (unequal sides), as a mesh
+MeshBox == Mesh(<<<<-6, -4, -2>>, <<6, -4, -2>>, <<-6, 4, -2>>, <<6, 4, -2>>, <<-6, -4, 2>>, <<6, -4, 2>>, <<-6, 4, 2>>, <<6, 4, 2>>>>,
+                <<<<1, 2, 3>>, <<4, 2, 3>>, <<1, 2, 5>>, <<6, 2, 5>>, <<1, 3, 5>>, <<7, 3, 5>>,
+                  <<4, 2, 8>>, <<6, 2, 8>>, <<4, 3, 8>>, <<7, 3, 8>>, <<6, 5, 8>>, <<7, 5, 8>>>>,
+                <<<<1, 2, 3, 5>>, <<4, 2, 3, 8>>, <<6, 2, 5, 8>>, <<7, 3, 5, 8>>, <<2, 3, 5, 8>>>>)
+ASSUME MeshWF(MeshBox)
+RotQ1 == {Roq(a, an, p) : a \in {Par(V2(-8, -6), V2(4, -2), V2(-4, 6)), Tri(V2(0, 0), V2(10, 0), V2(0, 8)), Cir(<<A1(-4, "t"), A0(0)>>, A1(2, "k")),
+                                  Tri(<<A0(-4), A1(-8, "k")>>, <<A0(8), A1(-8, "k")>>, <<A0(-4), A1(0, "k")>>), Poly(<<RingL>>)},
+                           an \in {"t", "k"}, p \in RotPts}
+Rot3D1 == {Ro3(a, m, p) : a \in {MeshBox, MeshTet}, m \in {"z345", "x345", "y90", "zx"}, p \in {V3(0, 0, 0), V3(2, -4, 2)}}
+          \cup {Ro3(a, m, p) : a \in {Sph, SphT}, m \in {"z345", "x345", "y90"}, p \in {V3(2, -4, 2), <<A1(-2, "t"), A0(0), A0(2)>>}}
+          \cup {Ro3(Cu(MeshBox, Sph), "x345", V3(0, 0, 0)), Un(Ro3(MeshBox, "z345", V3(0, 0, 0)), MeshTet)}
 \* dependent product: first factor's shape uses the coordinate u of the second
 DepCir == Cir(<<A1(-4, "u"), A0(0)>>, A0(4))
 DepCirT == Cir(<<A1(-4, "u"), A1(-2, "t")>>, A0(4))             \* centre also moves with the parameter t, constant radius
@@ -62,23 +103,31 @@ Depth1 == {Un(a, b) : a \in Prims2, b \in Prims2} \cup {Cu(a, b) : a \in Prims2,
                                    Cu(Cir(<<A2(-6, "u", 2), A0(0)>>, A0(4)), Par(V2(-16, 0), V2(16, 0), V2(-16, 8)))}, i \in Ints}
           \cup {Pr(i, Tr(a, t)) : i \in Ints, a \in {Cir(V2(0, 0), A0(6)), Par(V2(0, 0), V2(8, 0), V2(0, 8))}, t \in TransVecs}    \* transformed second factor
           \cup {Pr(i, Ro(a, "p345", p)) : i \in Ints, a \in {Tri(V2(0, 0), V2(10, 0), V2(0, 8))}, p \in RotPts}
-Exh == Prims2 \cup Ints \cup {IntBig} \cup {Sph, SphT} \cup {x \in Depth1 : x.k \notin {"union", "cut", "and"} \/ x.l # x.r}
+\* polygons and polyhedra in combinations: with a circle / a slanted parallelogram / a moving triangle on either side, moved, in products
+PolyMates == {Cir(V2(0, 0), A0(6)), Par(V2(-8, -6), V2(4, -2), V2(-4, 6)), Tri(<<A0(-4), A1(-8, "k")>>, <<A0(8), A1(-8, "k")>>, <<A0(-4), A1(0, "k")>>)}
+PolyD1 == UNION {{Un(q, a), Un(a, q), Cu(q, a), Cu(a, q), An(q, a), An(a, q)} : q \in Polys, a \in PolyMates}
+          \cup {Tr(q, t) : q \in Polys, t \in TransVecs} \cup {Ro(q, m, p) : q \in Polys, m \in Rots, p \in RotPts}
+          \cup {Pr(q, i) : q \in Polys, i \in Ints} \cup {Pr(i, q) : q \in Polys, i \in Ints}
+MeshD1 == {Un(MeshTet, Sph), Cu(Sph, MeshCube), Cu(MeshCube, Sph), An(MeshBi, SphT), An(Sph, MeshTet), Un(MeshCube, MeshBi), Cu(MeshCube, MeshTet)}
+Exh == Prims2 \cup Ints \cup {IntBig} \cup {Sph, SphT} \cup Polys \cup Meshes \cup PolyD1 \cup MeshD1 \cup RotQ1 \cup Rot3D1 \cup {x \in Depth1 : x.k \notin {"union", "cut", "and"} \/ x.l # x.r}
 
 \* ---- random growth
 R(S) == RandomElement(S)
 \* number of non-axis rotations on the path (magnitude budget of the 32-bit oracle: at most one)
 RECURSIVE Slant(_)
-Slant(x) == CASE x.k = "rot" -> (IF x.m \in {"p345", "m345", "p51213"} THEN 1 ELSE 0) + Slant(x.d)
+Slant(x) == CASE x.k = "rot" -> (IF x.m \in {"p345", "m345", "p51213", "z345", "x345"} THEN 1 ELSE IF x.m = "zx" THEN 2 ELSE 0) + Slant(x.d)
               [] x.k = "trans" -> Slant(x.d)
               [] x.k \in {"union", "cut", "and", "prod"} -> (IF Slant(x.l) > Slant(x.r) THEN Slant(x.l) ELSE Slant(x.r))
               [] OTHER -> 0
-Init == e \in Prims2 /\ n = 0
+PrimsG == Prims2 \cup Polys
+Init == e \in PrimsG /\ n = 0
 Next == /\ n < Depth /\ n' = n + 1
-        /\ \E w \in {R(1..8)}, p \in {R(Prims2 \ {e})}, t \in {R(TransVecs)}, m \in {R(Rots)}, q \in {R(RotPts)}, flip \in {R(BOOLEAN)} :
+        /\ \E w \in {R(1..9)}, p \in {R(PrimsG \ {e})}, t \in {R(TransVecs)}, m \in {R(Rots)}, q \in {R(RotPts)}, flip \in {R(BOOLEAN)} :
              e' = CASE w \in {1, 2} -> IF flip THEN Un(e, p) ELSE Un(p, e)
                     [] w \in {3, 4} -> IF flip THEN Cu(e, p) ELSE Cu(p, e)
                     [] w = 5 -> IF flip THEN An(e, p) ELSE An(p, e)
                     [] w = 6 -> Tr(e, t)
+                    [] w = 9 -> Roq(e, IF flip THEN "t" ELSE "k", q)
                     [] OTHER -> IF Slant(e) = 0 \/ m \in {"r90", "r180", "r270"} THEN Ro(e, m, q) ELSE Tr(e, t)
 Spec == Init /\ [][Next]_vars
 Emit == (n >= 1) => TLCSet(2, TLCGet(2) \cup {e})
